@@ -7,6 +7,7 @@ import (
 	"runtime/debug"
 	"sort"
 	"sync"
+	"strings"
 	"sync/atomic"
 	"testing"
 	"time"
@@ -279,7 +280,10 @@ func Guard(e *Env, part string, i int, f func()) {
 	defer func() {
 		if p := recover(); p != nil {
 			st := string(debug.Stack())
-			e.Rec.Violate(part, i, Sig("kind", "panic", "part", part, "where", PanicSite(st)), st, "panic in case %d: %v", i, p)
+			if ps, ok := p.(string); ok && strings.Contains(ps, "goroutine ") {
+				st = ps // a panic forwarded by Watchdog carries the original stack
+			}
+			e.Rec.Violate(part, i, Sig("kind", "panic", "part", part, "where", PanicSite(st)), st, "panic in case %d: %.200v", i, p)
 		}
 	}()
 	f()
